@@ -815,8 +815,15 @@ func (ev *Eval) callExpr(n *ast.CallExpr) Value {
 		}
 		return &PtrV{Loc: &Loc{Kind: LObj, Ref: iv.Data, Root: pt.Elem(), Typ: pt.Elem()}, Elem: pt.Elem()}
 	case "sameslice":
-		a, ok1 := ev.eval(n.Args[0]).(*SliceV)
-		b, ok2 := ev.eval(n.Args[1]).(*SliceV)
+		va, vb := ev.eval(n.Args[0]), ev.eval(n.Args[1])
+		if _, u := va.(*UndefV); u {
+			return &UndefV{}
+		}
+		if _, u := vb.(*UndefV); u {
+			return &UndefV{}
+		}
+		a, ok1 := va.(*SliceV)
+		b, ok2 := vb.(*SliceV)
 		if !ok1 || !ok2 {
 			ev.fail("sameslice on non-slices")
 		}
